@@ -50,7 +50,7 @@ func stdUniverse() *universe {
 			{name: "c.a", kind: 'c'}, {name: "c.b", kind: 'c'},
 			{name: "m.err", kind: 'm', getErr: reserr.CodeNotFound}, {name: "m.r2e", kind: 'm'},
 			{name: "q.m", kind: 'm', query: true}, {name: "q.c", kind: 'c', query: true},
-			{name: "cid.{cid}.m", kind: 'm'},
+			{name: "cid.{cid}.m", kind: 'm'}, {name: "m.pq", kind: 'm'},
 			{name: long, kind: 'm'},
 		},
 		norm: map[string]string{"q=a": "q=n1", "q=b": "q=n1", "q=c": "q=n2", "q=n1": "q=n1", "q=n2": "q=n2"},
@@ -58,11 +58,11 @@ func stdUniverse() *universe {
 			"m.a": "k1=p1,k2=r:m.b,k3=s:m.c", "m.b": "k1=p2,k2=r:m.c", "m.c": "k1=p3,k2=r:m.a,k3=d7",
 			"m.self": "k1=r:m.self,k2=p1", "c.a": "p1,r:m.b,r:m.b,p2", "c.b": "r:c.a,r:m.c,s:m.a",
 			"m.r2e": "k1=r:m.err,k2=p4", "q.m?q=n1": "k1=p1", "q.m?q=n2": "k1=p2,k2=r:m.b", "q.c?q=n1": "p1,p2",
-			"q.c?q=n2": "p3", "cid.{cid}.m": "k1=p9", long: "k1=p1",
+			"q.c?q=n2": "p3", "cid.{cid}.m": "k1=p9", long: "k1=p1", "m.pq": "k1=p1,k2=r:m.b",
 		},
 	}
 	u.rids = []string{"m.a", "m.b", "m.c", "m.self", "c.a", "c.b", "m.err", "m.r2e", "q.m?q=a", "q.m?q=b", "q.m?q=c",
-		"q.m?q=n1", "q.c?q=a", "q.c?q=c", "cid.{cid}.m", "m.zzz", "m.a?q=a", "q.m", long}
+		"q.m?q=n1", "q.c?q=a", "q.c?q=c", "cid.{cid}.m", "m.zzz", "m.pq?q=a", "m.pq", "q.m", long}
 	return u
 }
 
@@ -106,7 +106,7 @@ func profiles() map[string]profile {
 	ps["access"] = p
 
 	p = baseProfile("query") // query resources, normalisation, query events
-	p.rids = []string{"q.m?q=a", "q.m?q=b", "q.m?q=c", "q.m?q=n1", "q.c?q=a", "q.c?q=c", "q.m", "m.a?q=a"}
+	p.rids = []string{"q.m?q=a", "q.m?q=b", "q.m?q=c", "q.m?q=n1", "q.c?q=a", "q.c?q=c", "q.m", "m.pq?q=a", "m.pq"}
 	p.eventKinds = []string{"query", "query", "query", "custom", "change"}
 	p.reqKinds = []string{"subscribe", "subscribe", "subscribe", "unsubscribe", "get"}
 	p.wSilent, p.wReset = 10, 5
@@ -198,6 +198,29 @@ func (g *gen) clientRequest() {
 	rid := pick(g.r, g.rids())
 	if g.r.chance(1, 40) {
 		rid = pick(g.r, []string{"m..a", "m.*", "", "m.a.", ".m", "m.>", "m a"})
+	}
+	// One client never holds two raw queries that normalise to the same query: the order in which
+	// the gateway then hands one event to the two subscriptions is Go's map order, which neither
+	// the model nor the properties fix. Aliasing is exercised across clients instead.
+	if i := strings.IndexByte(rid, '?'); i > 0 {
+		if nq, ok := g.u.norm[rid[i+1:]]; ok {
+			var aliases []string
+			for raw, n := range g.u.norm {
+				if n == nq {
+					aliases = append(aliases, raw)
+				}
+			}
+			sort.Strings(aliases)
+			rid = rid[:i+1] + aliases[c.idx%len(aliases)]
+		}
+	}
+	if strings.HasPrefix(rid, "m.pq") {
+		// a plain resource asked with a query is cached under the plain name as well
+		if c.idx%2 == 0 {
+			rid = "m.pq?q=a"
+		} else {
+			rid = "m.pq"
+		}
 	}
 	g.kinds["req:"+kind]++
 	switch kind {
@@ -694,6 +717,11 @@ func runHistory(p profile, seed uint64, index int, keepSteps bool, wantSnap bool
 		return hr
 	}
 	w.wantSnap = wantSnap
+	if crashLog != nil {
+		crashLog.Truncate(0)
+		crashLog.Seek(0, 0)
+		fmt.Fprintf(crashLog, "# profile=%s seed=%d history=%d\n# config referenceThrottle=%d resetThrottle=%d\n", p.name, seed, index, cfg.referenceThrottle, cfg.resetThrottle)
+	}
 	g := &gen{r: r, w: w, p: p, u: u, kinds: map[string]int{}}
 	w.steps = append(w.steps, stepRec{Stim: fmt.Sprintf("# config referenceThrottle=%d resetThrottle=%d", cfg.referenceThrottle, cfg.resetThrottle)})
 	g.connect()
@@ -707,6 +735,9 @@ func runHistory(p profile, seed uint64, index int, keepSteps bool, wantSnap bool
 		g.drain()
 	}
 	w.steps = append(w.steps, stepRec{Stim: "# end of history: quiescent, every request answered"})
+	if crashLog != nil {
+		crashLog.WriteString("# end of history: quiescent, every request answered\n")
+	}
 	w.finalChecks()
 	// phase 3: everybody leaves
 	for _, c := range g.liveClients() {
@@ -717,6 +748,9 @@ func runHistory(p profile, seed uint64, index int, keepSteps bool, wantSnap bool
 	g.drain()
 	w.evict()
 	w.steps = append(w.steps, stepRec{Stim: "# all clients gone, evictions flushed"})
+	if crashLog != nil {
+		crashLog.WriteString("# all clients gone, evictions flushed\n")
+	}
 	w.drainedChecks()
 	w.close()
 	hr.Viols = w.viols
